@@ -18,6 +18,7 @@
    is the tree before them.  The theorems are about `Fixed`; `Pinned` is kept for the refutation
    lemmas and for replays. *)
 From TeraV Require Import Model.Value Model.Format.
+From TeraV Require Model.Utf8.   (* not imported: it opens N_scope *)
 
 (* ------------------------------------------------------------------ data model *)
 
@@ -465,10 +466,14 @@ Definition de_float (bits : N) (v : value) : res sval :=
 Definition de_char (v : value) : res sval :=
   match v with VStr [c] _ => ROk (SChar c) | _ => RErr ErrMsg end.
 
-(* String: visit_str; it also accepts visit_bytes holding valid UTF-8 — byte values never arise
-   from `ser` and are outside the model: ErrOther marks "not modelled", it is not an outcome *)
+(* String: visit_str; also visit_bytes (what a Bytes value arrives as), accepted exactly when the
+   bytes are valid UTF-8 (String::from_utf8, Model/Utf8.v), "invalid value: byte array" otherwise *)
 Definition de_string (v : value) : res sval :=
-  match v with VStr s _ => ROk (SStr s) | VBytes _ => RErr ErrOther | _ => RErr ErrMsg end.
+  match v with
+  | VStr s _ => ROk (SStr s)
+  | VBytes b => match Utf8.utf8_decode b with Some s => ROk (SStr s) | None => RErr ErrMsg end
+  | _ => RErr ErrMsg
+  end.
 
 (* ---- derived struct visitor, visit_map: a key is a field identifier when it arrives as
    visit_str (the field's name; unknown names are ignored) or visit_u64 (the field's index);
